@@ -135,6 +135,7 @@ CHECKS["C10"] = {
     "jobs": [
         J("populations", "c10", "TestPopulations", 500, 8000, 8),
         J("graphs", "c10", "TestGraphs", 400, 6000, 8),
+        J("scanners", "c10", "TestScanners", 300, 5000, 8),
     ],
     "assumptions": [
         "registration order and the registries' enumeration order are drawn explicitly (verif hook); Go map order inside the container and the goroutine schedule of the scan phase vary freely between the repeated runs and are thereby sampled, not controlled",
@@ -153,5 +154,33 @@ CHECKS["C14"] = {
     "assumptions": [
         "the harness owns the finishing order of the Close calls through per-closer gates; gates are opened independently of whether the closer has been entered, so a sequential implementation is not rejected",
         "the only wall-clock bound (10 s) applies after every gate is open, i.e. when all work is provably finishable",
+    ],
+}
+
+CHECKS["C19"] = {
+    "level": "exploration",
+    "jobs": [
+        J("faithful", "c19", "TestFaithful", 6000, 200000, 8),
+        J("totality", "c19", "TestTotality", 6000, 200000, 8),
+        J("e2e-required", "c19", "TestEndToEndRequired", 800, 20000, 4),
+        J("e2e-prop", "c19", "TestEndToEndProp", 500, 10000, 4),
+        J("seedcorpus", "c19", "FuzzTagParse", None, None),
+        J("fuzz", "c19", "FuzzTagParse", None, None, tiers=["thorough"], fuzz={"target": "FuzzTagParse", "time": {"quick": "10s", "thorough": "180s"}}, timeout={"thorough": 900}),
+    ],
+    "assumptions": [
+        "for strings whose brackets are not balanced 'top level' is undefined: only absence of panics and the required=false rule are asserted there",
+        "argument names in the faithful generator are ASCII identifiers; items are non-empty unless the whole list is empty",
+    ],
+}
+
+CHECKS["C11"] = {
+    "level": "exploration",
+    "jobs": [
+        J("embedding", "c11", "TestEmbedding", 3000, 80000, 8),
+        J("static", "c11", "TestStaticUnexportedEmbedding", None, None),
+    ],
+    "assumptions": [
+        "run-time built structs (reflect.StructOf) can only embed under an exported field name; embedded types with unexported names are covered by static fixtures",
+        "the element order of an injected slice is not part of the contract (compared as multisets)",
     ],
 }
